@@ -3,7 +3,7 @@
 Decided by Pipeline.tla (composition and gating of the stages) and Trace_Behave.tla (ObsStable) judging runs of runnable programs: the source,
 the tree after every stage of minify() (outside seams; compiled as an AST, no printer involved) and the printed result must all produce the same
 output, terminating exception type and public namespace.  Programs: every enumerated scope program of Rename.tla, suite case of Suite.tla and
-hoist placement of Hoist.tla (concretised runnable), hand-written seed scripts; options: the defaults and seeded subsets of the safe options.
+hoist placement of Hoist.tla (concretised runnable), the arithmetic cells of Fold.tla (120 to a module), hand-written seed scripts; options: the defaults and seeded subsets of the safe options.
 """
 import importlib.util
 import os
@@ -67,6 +67,24 @@ def programs(tier, rng):
         out.append(('hoist-%d' % k, hoistgen.build(set(uses), c['lit']), 'hoist'))
     for name, src in seeds_mod.seeds_for((3, 12)):
         out.append(('seed-' + name, src, 'seed'))
+    # arithmetic: the cells of Fold.tla (operator x operand class x operand class, concrete literals as in C07), many to a module in seeded order, each
+    # reporting the repr() of its value or the exception type - anything the folder carries from one expression to the next shows up here
+    from . import C07 as c07
+    cells, _ = tlc.cached_export('Fold', 'Export_Fold.cfg')
+    exprs = []
+    for c in cells:
+        for l in c07.LITS[c['lc']]:
+            for rr in c07.LITS[c['rc']]:
+                if not c07.dangerous(c['op'], l, rr):
+                    exprs.append('%s %s %s' % (l, c07.SYM[c['op']], rr))
+    exprs = sorted(set(exprs))
+    rng.shuffle(exprs)
+    per = 120
+    nmod = 30 if tier == 'quick' else (len(exprs) + per - 1) // per
+    for k in range(nmod):
+        body = '\n'.join('try: emit(repr(%s))\nexcept Exception as e: emit(type(e).__name__)' % e for e in exprs[k * per:(k + 1) * per])
+        if body:
+            out.append(('fold-%d' % k, body + '\n', 'fold'))
     return out
 
 
